@@ -289,6 +289,8 @@ def _inplace(osy, rng, res, e, ents, groups, views, steps, label, n):
     else:
         yunit = gen.draw_unit(rng, fam[0])
     dty = gen.draw_dtype(rng, 0.5)
+    if not gen.float32_safe(osy, (dty,) + tuple(str(c.dtype) for c in _comps(x)), (str(xunit), yunit)):
+        yunit = str(xunit)         # float32 numbers would over/underflow in the conversion itself
     shape = x.shape
     if kind == "same":
         y = _new_obj(osy, rng, shape[0] if shape else None, kind="vector" if is_vec else "array", dtype=dty, unit=yunit)
